@@ -53,7 +53,7 @@ Record sdom_laws : Prop := {
   vconj_1 : vconj D (vone D) = vone D;
   vconj_of : forall x, vconj D (vof D x) = vof D (conj x);
   vconj_abs : forall c, vconj D (vabs D c) = vabs D c;
-  vconj_inv : forall a, vconj D (vinv D a) = vinv D (vconj D a);
+  vconj_inv_abs : forall c, c <> r0 -> vconj D (vinv D (vabs D c)) = vinv D (vabs D c);
   lexp_ph_re : forall t, lph D t ** lexp D (lre D t) = lexp D t }.
 Hypothesis LW : sdom_laws.
 Let Hc := vmul_comm LW. Let Ha := vmul_assoc LW. Let H1 := vmul_1_l LW.
@@ -90,7 +90,7 @@ Proof. unfold comb, C07_Slogdet.ev. cbn [fst snd]. rewrite lexp_fold, (lexp_zero
 Lemma phase_abs c : c <> r0 -> phase D c ** vabs D c = vof D c.
 Proof. intros Hn. unfold phase. rewrite <- Ha, (Hc (vinv D _)), (vabs_inv LW c Hn). apply vmul_1_r. Qed.
 Lemma phase_conj_abs c : c <> r0 -> vconj D (phase D c) ** vabs D c = vof D (conj c).
-Proof. intros Hn. unfold phase. rewrite (vconj_mul LW), (vconj_of LW), (vconj_inv LW), (vconj_abs LW).
+Proof. intros Hn. unfold phase. rewrite (vconj_mul LW), (vconj_of LW), (vconj_inv_abs LW c Hn).
   rewrite <- Ha, (Hc (vinv D _)), (vabs_inv LW c Hn). apply vmul_1_r. Qed.
 Lemma conj_prodn n d : conj (prodn n d) = prodn n (fun i => conj (d i)).
 Proof. induction n; cbn [prodn]; [apply conj_1|]. rewrite conj_mul, IHn. reflexivity. Qed.
@@ -103,5 +103,190 @@ Proof. induction n as [|n IH]; intros Hd; cbn [diag_rule prodn].
     rewrite (lexp_add LW), (lexp_log_abs LW). split.
     + rewrite vswap4, IH1, (phase_abs _ (Hd n (Nat.lt_succ_diag_r n))), (vof_mul LW). reflexivity.
     + rewrite (vconj_mul LW), vswap4, IH2, (phase_conj_abs _ (Hd n (Nat.lt_succ_diag_r n))), conj_mul, (vof_mul LW). reflexivity.
+Qed.
+
+(* ================= the rules against the determinant interface ================= *)
+Variable fdet : nat -> fm -> R.
+Hypothesis DL : DetLaws fdet.
+Definition adjm (A : fm) : fm := fun i j => conj (A j i).
+Definition pm (p : nat -> nat) : fm := fun i j => delta (p i) j.
+Definition nzdiag (n : nat) (A : fm) := forall i, (i < n)%nat -> A i i <> r0.
+(* specification of the decoration that the selected base case reads (oracle hypotheses) *)
+Definition base_ok (alg : lalg) (n : nat) (A : fm) (b : based (R:=R) L) : Prop :=
+  match pick alg (b_psd b) n with
+  | PChol => lower_tri n (b_ch b) /\ nzdiag n (b_ch b) /\ feq n n A (mmul n (b_ch b) (adjm (b_ch b)))
+  | PLU => is_perm n (lu_p (b_lu b)) /\ lower_tri n (lu_L (b_lu b)) /\ upper_tri n (lu_U (b_lu b)) /\
+           nzdiag n (lu_L (b_lu b)) /\ nzdiag n (lu_U (b_lu b)) /\
+           feq n n A (mmul n (pm (lu_p (b_lu b))) (mmul n (lu_L (b_lu b)) (lu_U (b_lu b))))
+  | PKry => lexp D (b_kt b) = vof D (fdet n A) /\ fdet n A <> r0
+  end.
+
+Lemma tri_rule_lower n a : lower_tri n a -> nzdiag n a -> ev (tri_rule D n a) = vof D (fdet n a).
+Proof. intros Ht Hd. unfold tri_rule. rewrite (proj1 (diag_rule_ok n (fun i => a i i) Hd)), (det_lower fdet DL n a Ht). reflexivity. Qed.
+Lemma tri_rule_upper n a : upper_tri n a -> nzdiag n a -> ev (tri_rule D n a) = vof D (fdet n a).
+Proof. intros Ht Hd. unfold tri_rule. rewrite (proj1 (diag_rule_ok n (fun i => a i i) Hd)), (det_upper fdet DL n a Ht). reflexivity. Qed.
+Lemma chol_rule_ok n A ch : lower_tri n ch -> nzdiag n ch -> feq n n A (mmul n ch (adjm ch)) ->
+  ev (chol_rule D n ch) = vof D (fdet n A).
+Proof. intros Ht Hd HA. rewrite (det_ext fdet DL n _ _ HA), (det_mul fdet DL), (det_lower fdet DL n ch Ht).
+  rewrite (det_upper fdet DL n (adjm ch)).
+  2:{ intros i j Hi Hj Hij. unfold adjm. rewrite (Ht j i Hj Hi Hij). apply conj_0. }
+  unfold chol_rule, tri_rule, C07_Slogdet.ev. cbn [fst snd].
+  destruct (diag_rule_ok n (fun i => ch i i) Hd) as [E1 E2]. unfold C07_Slogdet.ev in E1.
+  rewrite (lexp_scale LW). cbn [vpow]. rewrite vmul_1_r, vswap4, E1, E2, (vof_mul LW).
+  unfold adjm. rewrite conj_prodn. reflexivity. Qed.
+Lemma perm_rule_ok n p : is_perm n p -> ev (perm_rule D all_fixed n p) = vof D (fdet n (pm p)).
+Proof. intros Hp. unfold perm_rule. cbn [perm_slogdet_ignores_parity all_fixed]. unfold C07_Slogdet.ev. cbn [fst snd].
+  rewrite (lexp_zero LW), vmul_1_r. unfold pm. rewrite (fdet_perm fdet DL n p Hp). reflexivity. Qed.
+Lemma lu_rule_ok n A lu : is_perm n (lu_p lu) -> lower_tri n (lu_L lu) -> upper_tri n (lu_U lu) ->
+  nzdiag n (lu_L lu) -> nzdiag n (lu_U lu) -> feq n n A (mmul n (pm (lu_p lu)) (mmul n (lu_L lu) (lu_U lu))) ->
+  ev (lu_rule D all_fixed n lu) = vof D (fdet n A).
+Proof. intros Hp HL HU DL' DU HA. unfold lu_rule. rewrite ev_comb. cbn [map vprod fold_right].
+  rewrite (perm_rule_ok n _ Hp), (tri_rule_lower n _ HL DL'), (tri_rule_upper n _ HU DU), vmul_1_r.
+  rewrite (det_ext fdet DL n _ _ HA), !(det_mul fdet DL), !(vof_mul LW). reflexivity. Qed.
+Lemma kry_rule_ok n A t : lexp D t = vof D (fdet n A) -> ev (kry_rule D all_fixed t) = vof D (fdet n A).
+Proof. intros H. unfold kry_rule. cbn [krylov_slogdet_abs_of_trace all_fixed]. unfold C07_Slogdet.ev. cbn [fst snd].
+  rewrite (lexp_ph_re LW). exact H. Qed.
+Lemma base_rule_ok alg n A b : base_ok alg n A b -> ev (base_rule D all_fixed alg n b) = vof D (fdet n A).
+Proof. unfold base_ok, base_rule. destruct (pick alg (b_psd b) n).
+  - intros (H1' & H2 & H3). apply chol_rule_ok; auto.
+  - intros (H1' & H2 & H3 & H4 & H5 & H6). apply lu_rule_ok; auto.
+  - intros [H _]. apply kry_rule_ok; exact H. Qed.
+Lemma scal_rule_ok c n : c <> r0 -> ev (scal_rule D all_fixed c n) = vof D (fdet n (fun i j => c * delta i j)).
+Proof. intros Hn. unfold scal_rule. cbn [scalar_slogdet_ignores_n all_fixed].
+  change (vpow D (phase D c) n, lscale D n (llog D (vabs D c))) with (scale_res D n (phase D c, llog D (vabs D c))).
+  rewrite ev_scale. unfold C07_Slogdet.ev. cbn [fst snd]. rewrite (lexp_log_abs LW), (phase_abs c Hn).
+  rewrite (fdet_scal fdet DL), vof_rpow. reflexivity. Qed.
+
+(* ---------- validity of a decorated tree for an algorithm choice (non-singular, oracle hypotheses) ---------- *)
+Inductive valid (alg : lalg) : sop -> Prop :=
+| V_Base e b n : wf e = true -> shape e = (n, n) -> base_ok alg n (den e) b -> valid alg (SBase e b)
+| V_Tri n lo a : (if lo : bool then lower_tri n a else upper_tri n a) -> nzdiag n a -> valid alg (STri n lo a)
+| V_Diag n d : (forall i, (i < n)%nat -> d i <> r0) -> valid alg (SDiag n d)
+| V_Ident n : valid alg (SIdent n)
+| V_Scal c n : c <> r0 -> valid alg (SScal c n)
+| V_Perm n p : is_perm n p -> valid alg (SPerm n p)
+| V_ProdSq ms b n : ms <> [] -> Forall (fun m => shape (to_op m) = (n, n)) ms -> Forall (valid alg) ms -> valid alg (SProd ms b)
+| V_ProdBase ms b n : forallb (fun m => is_square (shape (to_op m))) ms = false ->
+    wf (Prod (map to_op ms)) = true -> shape (Prod (map to_op ms)) = (n, n) ->
+    base_ok alg n (den (Prod (map to_op ms))) b -> valid alg (SProd ms b)
+| V_Kron ms : Forall (fun m => exists n, (0 < n)%nat /\ shape (to_op m) = (n, n)) ms -> Forall (valid alg) ms -> valid alg (SKron ms)
+| V_BDiag ms : Forall (fun mc => exists n, shape (to_op (fst mc)) = (n, n)) ms -> Forall (fun mc => valid alg (fst mc)) ms ->
+    valid alg (SBDiag ms).
+
+Definition Good (alg : lalg) (e : sop) : Prop :=
+  valid alg e -> ev (slogdet D all_fixed alg e) = vof D (fdet (dim e) (den (to_op e))).
+
+(* Product of square factors *)
+Lemma chain_square n (ms : list op) : Forall (fun m => shape m = (n, n)) ms ->
+  chain (map (fun m => (shape m, den m)) ms) = fold_right (fun M acc => mmul n M acc) eye (map den ms).
+Proof. induction 1 as [|m ms Hm _ IH]; cbn [map chain fold_right]; [reflexivity|].
+  fold (chain (map (fun m => (shape m, den m)) ms)). rewrite IH, Hm. reflexivity. Qed.
+Lemma vof_fold_prod (l : list R) : vof D (fold_right (fun x acc => x * acc) r1 l) = vprod (map (vof D) l).
+Proof. induction l; cbn [fold_right map vprod]; [apply (vof_1 LW)|]. rewrite (vof_mul LW), IHl. reflexivity. Qed.
+Lemma good_ProdSq alg ms b n : ms <> [] -> Forall (fun m => shape (to_op m) = (n, n)) ms -> Forall (valid alg) ms ->
+  Forall (Good alg) ms -> ev (slogdet D all_fixed alg (SProd ms b)) = vof D (fdet (dim (SProd ms b)) (den (to_op (SProd ms b)))).
+Proof. intros Hne Hsh Hv HG.
+  assert (Hsq : forallb (fun m => is_square (shape (to_op m))) ms = true).
+  { apply forallb_forall. intros m Hm. rewrite Forall_forall in Hsh. rewrite (Hsh m Hm). unfold is_square. cbn. apply Nat.eqb_refl. }
+  cbn [slogdet]. rewrite Hsq. rewrite ev_comb.
+  assert (Hd : dim (SProd ms b) = n).
+  { unfold dim. cbn [to_op shape]. destruct ms as [|m ms]; [congruence|]. cbn [map hd fst]. inversion Hsh; subst. rewrite H2. reflexivity. }
+  rewrite Hd. cbn [to_op den]. rewrite (chain_square n).
+  2:{ clear -Hsh. induction Hsh; cbn [map]; constructor; auto. }
+  rewrite (fdet_chain fdet DL), map_map.
+  clear Hne Hsq Hd. induction ms as [|m ms IH]; cbn [map fold_right vprod]; [apply eq_sym, (vof_1 LW)|].
+  pose proof (Forall_inv Hsh) as Sm. pose proof (Forall_inv_tail Hsh) as Sms.
+  pose proof (Forall_inv Hv) as Vm. pose proof (Forall_inv_tail Hv) as Vms.
+  pose proof (Forall_inv HG) as Gm. pose proof (Forall_inv_tail HG) as Gms. cbv beta in Sm.
+  rewrite (vof_mul LW), <- (IH Sms Vms Gms). f_equal. rewrite (Gm Vm). unfold dim. rewrite Sm. reflexivity. Qed.
+
+(* Kronecker *)
+Definition facof (m : op) : fac := mkfac (fst (shape m)) (snd (shape m)) (den m).
+Lemma kshape_kronR (l : list op) : kshape (map shape l) = (fr (kronR (map facof l)), fc (kronR (map facof l))).
+Proof. induction l as [|m l IH]; cbn [map kshape fold_right kronR kron2 fr fc one11]; [reflexivity|].
+  fold (kshape (map shape l)). rewrite IH. reflexivity. Qed.
+Lemma fold_mul_prodr (l : list nat) a : fold_left Nat.mul l a = (a * fold_right Nat.mul 1 l)%nat.
+Proof. revert a. induction l as [|x l IH]; intros a; cbn [fold_left fold_right]; [lia|]. rewrite IH. ring. Qed.
+Lemma good_Kron alg ms : Forall (fun m => exists n, (0 < n)%nat /\ shape (to_op m) = (n, n)) ms -> Forall (valid alg) ms ->
+  Forall (Good alg) ms -> ev (slogdet D all_fixed alg (SKron ms)) = vof D (fdet (dim (SKron ms)) (den (to_op (SKron ms)))).
+Proof. intros Hsh Hv HG. cbn [slogdet]. unfold kron_rule. rewrite ev_comb, !map_map. cbn [fst snd].
+  set (Ms := map facof (map to_op ms)).
+  assert (HS : Forall sqf Ms).
+  { unfold Ms. clear -Hsh. induction Hsh as [|m ms (n & Hn & E) _ IH]; cbn [map]; constructor; auto.
+    unfold sqf, facof. cbn [fr fc]. rewrite E. cbn. auto. }
+  assert (Hdim : dim (SKron ms) = fr (kronR Ms)).
+  { unfold dim. cbn [to_op shape]. rewrite kshape_kronR. reflexivity. }
+  assert (HN : fold_left Nat.mul (map (fun x => snd (shape (to_op x))) ms) 1%nat = fr (kronR Ms)).
+  { rewrite fold_mul_prodr, Nat.mul_1_l. unfold Ms. clear -Hsh.
+    induction Hsh as [|m ms (n & Hn & E) _ IH]; cbn [map fold_right kronR kron2 fr one11]; [reflexivity|].
+    rewrite IH. change (fr (facof (to_op m))) with (fst (shape (to_op m))). rewrite E. reflexivity. }
+  rewrite HN, Hdim. change (den (to_op (SKron ms))) with (fmx (kronR Ms)).
+  rewrite (fdet_kronR fdet DL Ms HS). generalize (fr (kronR Ms)) as N. intros N. unfold Ms.
+  clear HS Hdim HN Ms. induction ms as [|m ms IH]; cbn [map vprod fold_right kdets]; [apply eq_sym, (vof_1 LW)|].
+  pose proof (Forall_inv Hsh) as (n & Hn & E). pose proof (Forall_inv_tail Hsh) as Sms.
+  pose proof (Forall_inv Hv) as Vm. pose proof (Forall_inv_tail Hv) as Vms.
+  pose proof (Forall_inv HG) as Gm. pose proof (Forall_inv_tail HG) as Gms.
+  rewrite (vof_mul LW), <- (IH Sms Vms Gms). f_equal. rewrite ev_scale, (Gm Vm). rewrite vof_rpow.
+  unfold facof. cbn [fr fmx]. unfold dim. rewrite Nat.mul_1_l, E. reflexivity. Qed.
+
+(* BlockDiag with multiplicities *)
+Definition blk_of (b : shp * fm) : nat * fm := (fst (fst b), snd b).
+Lemma bd_bdl (l : list (shp * fm)) : Forall (fun b => fst (fst b) = snd (fst b)) l ->
+  forall i j, bd l i j = bdl (map blk_of l) i j.
+Proof. induction 1 as [|[s M] l E _ IH]; intros i j; cbn [bd map bdl blk_of fst snd]; [reflexivity|].
+  cbn [fst snd] in E. unfold bdiag2. rewrite <- E.
+  destruct (i <? fst s)%nat; destruct (j <? fst s)%nat; auto. Qed.
+Definition blocks (ms : list (sop * nat)) : list (shp * fm) :=
+  concat (map (fun mc => rep (snd mc) (shape (to_op (fst mc)), den (to_op (fst mc)))) ms).
+Lemma bdl_rep mu (b : shp * fm) rest :
+  bdl_dim (map blk_of (rep mu b ++ rest)) = (mu * fst (fst b) + bdl_dim (map blk_of rest))%nat /\
+  bdl_det fdet (map blk_of (rep mu b ++ rest)) = rpow (fdet (fst (fst b)) (snd b)) mu * bdl_det fdet (map blk_of rest).
+Proof. induction mu as [|mu [IH1 IH2]]; cbn [rep app map bdl_dim bdl_det rpow blk_of]; [split; [reflexivity|ring]|].
+  fold (blk_of b). split.
+  - change (map blk_of (rep mu b ++ rest)) with (map blk_of (rep mu b ++ rest)). rewrite IH1. cbn [blk_of fst]. lia.
+  - rewrite IH2. cbn [blk_of fst snd]. ring. Qed.
+Lemma rep_square mu (b : shp * fm) : fst (fst b) = snd (fst b) -> Forall (fun b => fst (fst b) = snd (fst b)) (rep mu b).
+Proof. intros E. induction mu; cbn [rep]; constructor; auto. Qed.
+Lemma good_BDiag alg ms : Forall (fun mc => exists n, shape (to_op (fst mc)) = (n, n)) ms -> Forall (fun mc => valid alg (fst mc)) ms ->
+  Forall (fun mc => Good alg (fst mc)) ms ->
+  ev (slogdet D all_fixed alg (SBDiag ms)) = vof D (fdet (dim (SBDiag ms)) (den (to_op (SBDiag ms)))).
+Proof. intros Hsh Hv HG. cbn [slogdet]. unfold bdiag_rule. rewrite ev_comb, !map_map. cbn [fst snd].
+  assert (Hden : den (to_op (SBDiag ms)) = bd (blocks ms)).
+  { cbn [to_op den]. unfold blocks. rewrite map_map. reflexivity. }
+  assert (Hsq : Forall (fun b => fst (fst b) = snd (fst b)) (blocks ms)).
+  { unfold blocks. clear -Hsh. induction Hsh as [|mc ms (n & E) _ IH]; cbn [map concat]; [constructor|].
+    apply Forall_app. split; [|exact IH]. apply rep_square. cbn [fst snd]. rewrite E. reflexivity. }
+  assert (Hdim : dim (SBDiag ms) = bdl_dim (map blk_of (blocks ms))).
+  { unfold dim. cbn [to_op shape]. rewrite map_map. cbn [fst snd]. unfold blocks. clear Hden Hsq Hsh Hv HG.
+    induction ms as [|mc ms IH]; cbn [map bshape fold_right concat fst snd]; [reflexivity|].
+    rewrite (proj1 (bdl_rep _ _ _)). cbn [fst]. fold (bshape (map (fun x : sop * nat => (shape (to_op (fst x)), snd x)) ms)).
+    rewrite IH. lia. }
+  rewrite Hden, Hdim, (det_ext fdet DL _ _ _ (fun i j _ _ => bd_bdl _ Hsq i j)), (fdet_bdl fdet DL).
+  clear Hden Hsq Hdim. unfold blocks. induction ms as [|mc ms IH]; cbn [map vprod fold_right concat bdl_det]; [apply eq_sym, (vof_1 LW)|].
+  pose proof (Forall_inv Hsh) as (n & E). pose proof (Forall_inv_tail Hsh) as Sms.
+  pose proof (Forall_inv Hv) as Vm. pose proof (Forall_inv_tail Hv) as Vms.
+  pose proof (Forall_inv HG) as Gm. pose proof (Forall_inv_tail HG) as Gms.
+  rewrite (proj2 (bdl_rep _ _ _)), (vof_mul LW), <- (IH Sms Vms Gms). f_equal.
+  rewrite ev_scale, (Gm Vm), vof_rpow. cbn [fst snd]. unfold dim. reflexivity. Qed.
+
+(* ================= the theorem ================= *)
+Theorem slogdet_det_all alg e : Good alg e.
+Proof. induction e using sop_ind2; intros Hv; inversion Hv; subst; unfold dim.
+  - (* base case *) cbn [slogdet to_op].
+    match goal with E : shape _ = (_, _) |- _ => rewrite E end. cbn [fst]. apply base_rule_ok. assumption.
+  - cbn [slogdet to_op shape den nr dat fst]. destruct lo; [apply tri_rule_lower|apply tri_rule_upper]; auto.
+  - cbn [slogdet to_op shape den fst].
+    match goal with Hd : forall i, (i < _)%nat -> _ <> r0 |- _ => rewrite (proj1 (diag_rule_ok n d Hd)) end.
+    rewrite (fdet_diag fdet DL). reflexivity.
+  - cbn [slogdet to_op shape den fst]. rewrite ev_ident, (det_eye fdet DL), (vof_1 LW). reflexivity.
+  - cbn [slogdet to_op shape den fst]. apply scal_rule_ok; auto.
+  - cbn [slogdet to_op shape den fst]. apply perm_rule_ok; auto.
+  - eapply good_ProdSq; eauto.
+  - cbn [slogdet].
+    match goal with E : forallb _ _ = false |- _ => rewrite E end.
+    change (to_op (SProd ms b)) with (Prod (map to_op ms)).
+    match goal with E : shape (Prod _) = (_, _) |- _ => rewrite E end. cbn [fst]. apply base_rule_ok. assumption.
+  - apply good_Kron; auto.
+  - apply good_BDiag; auto.
 Qed.
 End Proofs.
